@@ -88,6 +88,7 @@ def gen_model(rng, tmp, idx, depth):
 class Recording(object):
     def __init__(self):
         self.calls = []
+        self.kwargs = {}      # result name -> the keyword arguments its body was called with
 
 
 @contextlib.contextmanager
@@ -126,8 +127,10 @@ def recorded(classes, rec):
                     out = orig(self, **kw)
                 except Exception as e:
                     rec.calls.append((cname, self.result_name, params, ins, ("err", e)))
+                    rec.kwargs[self.result_name] = dict(kw)
                     raise
                 rec.calls.append((cname, self.result_name, params, ins, ("ok", out.copy() if hasattr(out, "copy") else out)))
+                rec.kwargs[self.result_name] = dict(kw)
                 return out
             return execute
         c.execute = make(orig, c.__name__)
@@ -212,6 +215,21 @@ def run(ctx):
                 ctx.count("unexpected_in_well_typed:" + inner)
         elif ref["status"].startswith("raw:") or ref["status"] == "syntax":
             ctx.fail("well-typed model: %s" % ref["status"], desc)
+        # every argument written in the file reaches the body with its value (an argument equal to 0 or "" is still an argument)
+        for rname, cname, args in cmds:
+            kw = rec.kwargs.get(rname)
+            if kw is None:
+                continue
+            for aname, aval in args:
+                if aname == "Metadata":
+                    continue
+                if aname not in kw:
+                    ctx.fail("argument %s = %r of command %s is written in the model but never reaches the command" % (aname, aval, rname), desc)
+                    break
+                got = kw[aname]
+                if isinstance(aval, (int, float)) and not isinstance(aval, bool) and isinstance(got, (int, float)) and float(got) != float(progrun.raw_of(aval)):
+                    ctx.fail("argument %s = %r of command %s reaches the command as %r" % (aname, aval, rname, got), desc)
+                    break
         # a command's result, read after the run, is still what its body returned (no later consumer overwrote it)
         for cname, rname, params, ins, (st, out) in rec.calls:
             if st == "ok" and isinstance(out, numpy.ndarray) and rname in ref["results"]:
